@@ -84,6 +84,139 @@ def _reduce_roots(p):
     return p
 
 
+def _power_law_running(F, R):
+    """m(Q) = B (Q/Q0)^(-gamma) with B, Q0, gamma independent of Q and gamma = c * coupling, c > 0, is exactly what makes the
+    running reduce to its boundary value at Q0, decrease monotonically and compose (m(Q3) = m(Q2) (Q3/Q2)^(-gamma)).
+    A regime split on the scale is accepted only if every branch has this form and the branches agree at the boundary."""
+    from .rules_c01 import leaves, hoist_ites
+    R.rule("R7", "each running-mass routine is one power law in the scale, m(Q) = B (Q/Q0)^(-c * coupling) with c > 0 and B, Q0 "
+                 "independent of Q (boundary value at Q0, monotonically decreasing, composition Q1 -> Q2 -> Q3 = Q1 -> Q3); a split "
+                 "on the scale must be continuous at its boundary", 3)
+    E = Evaluator(F, inline=lambda n, g: False, max_depth=2)
+    SC = ("sym", "scale")
+
+    def has_scale(t):
+        return any(x == SC for x in subterms(t))
+
+    def power_law(t):
+        """-> (B, Q0, exponent term) or None"""
+        fac = []
+
+        def flat(u, inv=False):
+            if u[0] == "*":
+                flat(u[1], inv)
+                flat(u[2], inv)
+            elif u[0] == "/":
+                flat(u[1], inv)
+                flat(u[2], not inv)
+            else:
+                fac.append((u, inv))
+        flat(t)
+        scaled = [(u, inv) for u, inv in fac if has_scale(u)]
+        if len(scaled) != 1:
+            return None
+        u, inv = scaled[0]
+        if inv or u[0] != "call":
+            return None
+        if str(u[1]) in ("pow", "std::pow") and len(u[2]) == 2 and not has_scale(u[2][1]):
+            base, ex = u[2]
+        elif str(u[1]) in ("exp", "std::exp") and len(u[2]) == 1 and u[2][0][0] == "*":
+            a, b = u[2][0][1], u[2][0][2]
+            lg, ex = (a, b) if has_scale(a) else (b, a)
+            if lg[0] != "call" or str(lg[1]) not in ("log", "std::log") or has_scale(ex):
+                return None
+            base = lg[2][0]
+        else:
+            return None
+        if not (base[0] == "/" and base[1] == SC and not has_scale(base[2])):
+            return None
+        return [x for x in fac if x is not scaled[0]], base[2], ex
+
+    def negative_multiple_of_coupling(ex):
+        """ex = -(positive rational / pi) * (one positive coupling atom)"""
+        try:
+            r = to_rat(ex)
+        except NotPolynomial:
+            return False
+        if len(r.n.t) != 1:
+            return False
+        (mono, c), = r.n.t.items()
+        dmono = list(r.d.t.items())
+        if len(dmono) != 1:
+            return False
+        c = c / dmono[0][1]
+        atoms = [a for a, e in mono if a != ("const", "pi")]
+        return c < 0 and len(atoms) == 1 and all(e == 1 for a, e in mono if a != ("const", "pi"))
+
+    for nm in ("calculate_mt_SM6_MSbar", "calculate_mb_SM6_MSbar", "calculate_mtau_SM6_MSbar"):
+        f = F.fn("gm2calc::" + nm)
+        ps = [p["name"] for p in f["params"]]
+        if "scale" not in ps:
+            R.soft_broken("R7: %s has no parameter named scale" % nm)
+            continue
+        v, fr = E.function_value(f)
+        lv = leaves(hoist_ites(v))
+        ok, why = True, ""
+        forms = []
+        for fa, val in lv:
+            pl = power_law(val)
+            if pl is None:
+                if not has_scale(val) and len(lv) > 1:
+                    forms.append((fa, val, None))
+                    continue
+                ok, why = False, "a branch is not of the form B * pow(scale/Q0, e): %s" % show(val)[:120]
+                break
+            if not negative_multiple_of_coupling(pl[2]):
+                ok, why = False, "the exponent %s is not -(c/pi) * coupling with c > 0" % show(pl[2])[:80]
+                break
+            forms.append((fa, val, pl))
+        if ok and len(lv) > 1:
+            # continuity at every boundary `scale <op> X`
+            for fa, val, pl in forms:
+                for c, truth in fa:
+                    if c[0] == "cmp" and (c[2] == SC or c[3] == SC):
+                        bnd = c[3] if c[2] == SC else c[2]
+                        vals = []
+                        for fa2, val2, pl2 in forms:
+                            t2 = subst_fold(val2, {SC: bnd})
+                            # pow(X/X, e) = 1
+                            t2 = _pow_one(t2)
+                            vals.append(t2)
+                        try:
+                            r0 = to_rat(vals[0])
+                            for t2 in vals[1:]:
+                                r2 = to_rat(t2)
+                                if not (r0.n * r2.d - r2.n * r0.d).is_zero():
+                                    ok, why = False, "the branches disagree at scale = %s: %s vs %s (a jump: the running neither composes nor stays " \
+                                                     "monotonic across it)" % (show(bnd), show(vals[0])[:60], show(t2)[:60])
+                        except NotPolynomial as ex:
+                            ok, why = False, str(ex)[:100]
+                if not ok:
+                    break
+        R.check("R7", ok, "%s: %s" % (nm, "B * (scale/Q0)^(-c*coupling)" if len(lv) == 1 else "%d regimes" % len(lv)), F.loc(f), why,
+                key="R7|" + nm)
+
+
+def _pow_one(t):
+    if not isinstance(t, tuple) or not t:
+        return t
+    if t[0] == "call" and str(t[1]) in ("pow", "std::pow") and len(t[2]) == 2:
+        b = t[2][0]
+        try:
+            rb = to_rat(b)
+            if (rb.n - rb.d).is_zero():
+                return ("num", Fraction(1))
+        except NotPolynomial:
+            pass
+    if t[0] in ("+", "-", "*", "/"):
+        return (t[0], _pow_one(t[1]), _pow_one(t[2]))
+    if t[0] == "neg":
+        return ("neg", _pow_one(t[1]))
+    if t[0] == "call":
+        return ("call", t[1], tuple(_pow_one(a) for a in t[2]))
+    return t
+
+
 def run(F, R, tier):
     R.explanation = (
         "(R1) the standard CKM parametrisation built by get_ckm_from_angles satisfies V V^dagger = 1 as a "
@@ -339,6 +472,8 @@ def run(F, R, tier):
             "writable static storage in the running-mass code: %s" % ", ".join(
                 "%s (%s:%s%s)" % (g["name"], g["file"], g["line"], ", static local of %s" % g.get("infunc") if g.get("staticlocal") else "")
                 for g in bad[:3]), key="R6|statics")
+
+    R.guard(_power_law_running, F, R)
 
     R.rule("R5", "calculate_lambda_qcd: a failing root search is caught (handler covers every exception the try "
                  "body may raise), warned about, and the default value is kept", 3)
